@@ -36,15 +36,15 @@ PROPS = {
     },
     'C08': {
         'props': ['theories/Props/C08.v'], 'deps': READER_DEPS + ['theories/Theory/WriterFacts.v'],
-        'streams': ['l4-reader', 'l5-faults'],
+        'streams': ['l4-reader', 'l5-faults', 'l6-http'],
         'trusted_base': READER_TB + ['bufio.Writer: a short write surfaces as io.ErrShortWrite from Flush (modelled)'],
         'assumptions': COMMON_ASSUME + ['OS-level behaviour appears only as: the source returned an error after k bytes / the destination accepted k bytes'],
     },
     'C09': {
-        'props': ['theories/Props/C09.v'], 'deps': READER_DEPS + ['theories/Theory/ReaderTotal.v', 'theories/Theory/ScanSpec.v', 'theories/Theory/Segments.v'],
+        'props': ['theories/Props/C09.v'], 'deps': READER_DEPS + ['theories/Theory/ReaderTotal.v', 'theories/Theory/ScanSpec.v', 'theories/Theory/Segments.v', 'theories/Theory/SegmentsGen.v'],
         'streams': ['l5-props', 'l4-reader'],
         'trusted_base': READER_TB,
-        'assumptions': COMMON_ASSUME + ['separator independence is proved for texts below the 64 KiB token limit whose segments hold no further brace and no line break (what the writer emits for FAIM values); doubled separators and texts with stray line breaks are decided on the implementation by stream l5-props'],
+        'assumptions': COMMON_ASSUME + ['separator independence is proved for texts below the 64 KiB token limit whose segments hold no further brace and no line break (what the writer emits for FAIM values); runs of line breaks (any concatenation of LF and CRLF) before / between / after the segments are proved irrelevant as well; a lone CR or other stray bytes between segments are decided on the implementation by stream l5-props'],
     },
     'C02': {
         'props': ['theories/Props/C02.v'], 'deps': READER_DEPS + CODEC_DEPS + ['theories/Theory/WriterFacts.v', 'theories/Model/Writer.v', 'gen/Writer.v', 'theories/Theory/Segments.v', 'theories/Theory/FileRoundTripFull.v'],
